@@ -18,6 +18,20 @@ Alphabet == { G(X), A("!"), A("fail"), C("q", <<X>>), C("call", <<A("!")>>), C("
 \* the goals that cut, commit or leave choice points: longer bodies are enumerated over this sub-alphabet
 CutAlphabet == { G(X), A("!"), C("q", <<X>>), C("once", <<G(X)>>), C(";", <<C("->", <<G(X), A("true")>>), C("w", <<A("e")>>)>>),
                  C("call", <<C(",", <<G(X), A("!")>>)>>) }
+\* a cut inside call/N, \+, findall, bagof, catch or a goal bound at run time is local to that goal, wherever it stands in the inner
+\* conjunction (left-nested, in the middle, last); Y is a second clause variable
+Y == V(2)
+GC == C(",", <<G(X), A("!")>>)
+OpaqueAlphabet == { C("call", <<C(",", <<GC, C("w", <<X>>)>>)>>),                                   \* call(((g(X), !), w(X)))
+                    C("call", <<C(",", <<G(X), C(",", <<A("!"), C("w", <<X>>)>>)>>)>>),            \* call((g(X), !, w(X)))
+                    C("call", <<A("call"), GC>>),                                                    \* call(call, (g(X), !))
+                    C("\\+", <<C(",", <<G(X), C(",", <<A("!"), A("fail")>>)>>)>>),                  \* \+ (g(X), !, fail)
+                    C("findall", <<X, GC, Cons(A("a"), Nil)>>),                                      \* findall(X, (g(X), !), [a])
+                    C("bagof", <<X, C(",", <<GC, A("true")>>), Cons(A("a"), Nil)>>),                 \* bagof(X, ((g(X), !), true), [a])
+                    C("catch", <<GC, A("e"), A("true")>>),                                           \* catch((g(X), !), e, true)
+                    C(",", <<C("=", <<Y, GC>>), Y>>),                                                \* Y = (g(X), !), Y
+                    C(",", <<C("=", <<Y, C(",", <<GC, A("true")>>)>>), C("call", <<Y>>)>>),          \* Y = ((g(X), !), true), call(Y)
+                    G(X), A("!"), C("w", <<X>>) }
 RECURSIVE Conj(_)
 Conj(s) == IF Len(s) = 0 THEN A("true") ELSE IF Len(s) = 1 THEN s[1] ELSE C(",", <<s[1], Conj(Tail(s))>>)
 
@@ -25,8 +39,8 @@ CONSTANTS N1,       \* maximal length of the first clause body
           N2,       \* maximal length of the second clause body
           ND,       \* maximal length of each branch of a top-level disjunctive first body (0: none)
           NCTX,     \* number of calling contexts used (1..8)
-          ALPHA     \* "full" | "cuts": the alphabet of body goals
-Seqs(n) == UNION { [1..k -> (IF ALPHA = "full" THEN Alphabet ELSE CutAlphabet)] : k \in 0..n }
+          ALPHA     \* "full" | "cuts" | "opaque": the alphabet of body goals
+Seqs(n) == UNION { [1..k -> (IF ALPHA = "full" THEN Alphabet ELSE IF ALPHA = "cuts" THEN CutAlphabet ELSE OpaqueAlphabet)] : k \in 0..n }
 
 Bodies1 == { Conj(s) : s \in Seqs(N1) } \cup
            (IF ND = 0 THEN {} ELSE { C(";", <<Conj(s), Conj(t)>>) : s \in Seqs(ND) \ {<<>>}, t \in Seqs(ND) \ {<<>>} })
@@ -39,8 +53,8 @@ FixedDb == << [key |-> <<"g", 1>>, dyn |-> FALSE, cls |-> << [id |-> 1, head |->
                                                           [id |-> 5, head |-> C("q", <<A("c")>>), body |-> TrueA, nv |-> 0] >>] >>
 
 PDb(b1, b2) == FixedDb \o << [key |-> <<"p", 1>>, dyn |-> FALSE,
-                              cls |-> << [id |-> 6, head |-> C("p", <<V(1)>>), body |-> b1, nv |-> 1],
-                                         [id |-> 7, head |-> C("p", <<V(1)>>), body |-> b2, nv |-> 1],
+                              cls |-> << [id |-> 6, head |-> C("p", <<V(1)>>), body |-> b1, nv |-> 2],
+                                         [id |-> 7, head |-> C("p", <<V(1)>>), body |-> b2, nv |-> 2],
                                          [id |-> 8, head |-> C("p", <<A("z")>>), body |-> TrueA, nv |-> 0] >>] >>
 
 P == C("p", <<V(1)>>)
